@@ -488,6 +488,9 @@ func main() {
 				}
 			}
 		}
+		if cls != "" && filt == "LZW" && cls != "lzw-predictor-rejected" && cls != "unexpected-error" {
+			cls = "lzw-" + cls // e.g. the predictor is accepted but not applied
+		}
 		if cls != "" {
 			// vh keeps only the first 2000 failure records of a run: cap each class so that the
 			// two known classes cannot crowd out a new one
